@@ -823,6 +823,9 @@ WRONG_POOL = [
     V("enum", e="Color", m="RED"), V("state", s="Inner", f={"v": V("int", x=1)}), V("impl"), V("notimpl"),
     V("gbox", arg="str", val=V("str", x="g"), items=[]), V("set", items=[V("int", x=1)]),
     V("dict", items=[[V("obj"), V("obj")]]), V("list", items=[V("obj")]), V("missing"),
+    # mappings that merely SPELL a nested state's attributes are not instances of it
+    V("dict", items=[[V("str", x="v"), V("int", x=1)]]), V("dict", items=[[V("str", x="val"), V("int", x=1)]]),
+    V("dict", items=[[V("str", x="v"), V("int", x=1)], [V("str", x="w"), V("str", x="w")]]),
 ]  # fmt: skip
 
 
